@@ -261,24 +261,54 @@ fn end_to_end(rep: &Report, tier: Tier) {
     // two PDUs fragmented into 3 packets each (ids 0 and 1), complete packets, rejected packets
     let mut enc = Encapsulator::new(DefaultCrc {});
     let mk_train = |enc: &mut Encapsulator<DefaultCrc>, pd: &[u8], fid: u8, l: Lbl| -> Vec<Vec<u8>> {
+        // Which small buffers a sender accepts is its own choice (only >= 13 bytes for a first call and >= 7 bytes for a
+        // continuation are promised): the smallest accepted buffer that still forces fragmentation is used, and if the
+        // sender does not produce a 3-packet train at all the same train is printed by the reference sender.
         let mut out = vec![];
-        let mut b = vec![0u8; 7 + l.wire_len() + 1];
-        let EncOut::Fragmented(n, mut ctx) = do_encap(enc, pd, fid, 0x0800, l, &mut b) else { return out };
-        out.push(b[..n].to_vec());
-        loop {
-            let rem = pd.len() - ctx.pos as usize;
-            let mut bb = vec![0u8; if out.len() == 1 { 3 + rem / 2 } else { 64 }];
-            match do_encap_frag(enc, pd, ctx, &mut bb) {
-                EncOut::Fragmented(n2, c2) => {
-                    out.push(bb[..n2].to_vec());
-                    ctx = c2;
-                }
-                EncOut::Completed(n2) => {
-                    out.push(bb[..n2].to_vec());
+        let mut first: Option<(usize, Ctx, Vec<u8>)> = None;
+        for fb in [7 + l.wire_len() + 1, 13, 14, 15] {
+            let mut b = vec![0u8; fb];
+            let mut e2 = enc.clone();
+            if let EncOut::Fragmented(n, ctx) = do_encap(&mut e2, pd, fid, 0x0800, l, &mut b) {
+                if (ctx.pos as usize) + 2 <= pd.len() {
+                    *enc = e2;
+                    first = Some((n, ctx, b));
                     break;
                 }
-                _ => break,
             }
+        }
+        if let Some((n, mut ctx, b)) = first {
+            out.push(b[..n].to_vec());
+            loop {
+                let rem = pd.len() - ctx.pos as usize;
+                let mut done = false;
+                let mut progressed = false;
+                for bl in if out.len() == 1 { vec![3 + rem / 2, 7, 8] } else { vec![64] } {
+                    let mut bb = vec![0u8; bl];
+                    match do_encap_frag(enc, pd, ctx, &mut bb) {
+                        EncOut::Fragmented(n2, c2) => {
+                            out.push(bb[..n2].to_vec());
+                            ctx = c2;
+                            progressed = true;
+                        }
+                        EncOut::Completed(n2) => {
+                            out.push(bb[..n2].to_vec());
+                            done = true;
+                            progressed = true;
+                        }
+                        _ => continue,
+                    }
+                    break;
+                }
+                if done || !progressed {
+                    break;
+                }
+            }
+        }
+        let complete_train = out.len() >= 2 && refm::header_fields(u16::from_be_bytes([out[out.len() - 1][0], out[out.len() - 1][1]])).map(|h| h.0) == Some(refm::Kind::End);
+        if !complete_train {
+            let cut = (pd.len() / 3).max(1);
+            out = refm::ref_train(l, 0x0800, fid, pd, &[cut, cut]);
         }
         out
     };
